@@ -605,7 +605,8 @@ func (c *ExpressionParser) performSyntaxAnalysisAtLevel6() error {
 		for true {
 			c.moveToNextToken()
 			token = c.getCurrentToken()
-			if token == nil || token.Type() == RightBrace {
+			// A closing parenthesis ends an empty parameter list only; after a comma a parameter must follow
+			if token == nil || (token.Type() == RightBrace && paramCount == 0) {
 				break
 			}
 
